@@ -63,7 +63,164 @@ def vcore_check(sub, level="exploration", extra_steps=None):
     return {"build": vcore_build, "steps": steps, "replay": replay, "level": level}
 
 
+# ---------------------------------------------------------------------- C02
+
+C02_FAMILIES = ["tails", "grid", "withlang", "tokens", "mutations"]
+C02_PHASES = ["parse", "display", "debug", "encode", "traverse", "clone-eq", "drop"]
+BOMB_FAMILIES = ["nest", "nest-noname", "nest-multi", "set-width", "coll-set", "attr-count", "group-count", "member-count",
+                 "value-len", "name-len", "unterminated", "endcoll-flood", "member-flood", "addl-no-attr"]
+PHASE_NAMES = ["setup", "parse", "async-parse", "value-parse", "display", "debug", "encode", "traverse", "clone-eq", "drop"]
+
+
+def _pool(jobs, fn, workers=16):
+    from concurrent.futures import ThreadPoolExecutor
+    with ThreadPoolExecutor(max_workers=workers) as ex:
+        return list(ex.map(fn, jobs))
+
+
+def _empty_result(ctx):
+    return {"property_id": ctx["pid"], "tier": ctx["tier"], "seed": ctx["seed"],
+            "coverage": {"evaluations": 0, "distinct_nontrivial": 0, "rule": "", "samples": [], "counters": {}, "observed_sets": {}},
+            "wall_s": 0, "violations_total": 0, "violations": [], "inconclusive": [], "assumptions": [], "layers": []}
+
+
+def _parse_abort(se):
+    import re
+    m = re.search(r"VERIF-ABORT sig=(\d+) case=(\d+) phase=(\d+)", se)
+    if not m:
+        return None
+    return int(m.group(1)), int(m.group(2)), int(m.group(3)), ("stack overflow" in se or "overflowed its stack" in se)
+
+
+def c02_worker(ctx, fam, shard, nshards, binary=None, tag=None):
+    """one shard of one family in a child process; aborts are attributed and the shard resumed"""
+    binary = binary or _bin(ctx, "vcore")
+    skip = []
+    extra_viol = []
+    for attempt in range(6):
+        out = os.path.join(ctx["work"], f"C02.{ctx['tier']}.{tag or 'w'}.{fam}.{shard}.json")
+        if os.path.exists(out):
+            os.remove(out)
+        cmd = [binary, "c02w", "--family", fam, "--shard", str(shard), "--nshards", str(nshards),
+               "--tier", ctx["tier"], "--seed", str(ctx["seed"]), "--out", out]
+        if skip:
+            cmd += ["--skip", ",".join(map(str, skip))]
+        rc, so, se, secs = ctx["run"](cmd, timeout=_timeout(ctx))
+        if rc is None:
+            raise ctx["Inconclusive"](f"watchdog: C02 worker {fam}/{shard} exceeded the wall-clock limit")
+        if rc == 0 and os.path.exists(out):
+            r = json.load(open(out))
+            for v in r["violations"]:
+                v["binary"] = "vcore"
+            r["violations"] += extra_viol
+            r["violations_total"] += len(extra_viol)
+            return r
+        ab = _parse_abort(se)
+        if ab is None:
+            raise ctx["Inconclusive"](f"C02 worker {fam}/{shard} died (rc={rc}) without attribution: {se[-400:]}")
+        sig, case, phase, so_flag = ab
+        kind = "stack-overflow" if so_flag else f"abort-sig{sig}"
+        extra_viol.append({
+            "signature": f"C02:{kind}:{fam}:{PHASE_NAMES[phase]}",
+            "detail": f"process aborted ({kind}) in phase {PHASE_NAMES[phase]} of case {case} of family {fam}: {se[-300:]}",
+            "replay": ["c02w", "--family", fam, "--seed", str(ctx["seed"]), "--only", str(case)],
+            "binary": "vcore"})
+        skip.append(case)
+    r = _empty_result(ctx)
+    r["violations"] = extra_viol
+    r["violations_total"] = len(extra_viol)
+    r["inconclusive"].append(f"C02 worker {fam}/{shard}: more than 5 aborts, shard abandoned")
+    return r
+
+
+def c02_bomb(ctx, fam, size, phase, stack, use_async=False):
+    out = os.path.join(ctx["work"], f"C02.{ctx['tier']}.bomb.{fam}.{size}.{phase}.{stack}.{int(use_async)}.json")
+    if os.path.exists(out):
+        os.remove(out)
+    argv = ["c02bomb", "--family", fam, "--size", str(size), "--phase", phase, "--stack", str(stack)] + (["--async"] if use_async else [])
+    cmd = [_bin(ctx, "vcore")] + argv + ["--tier", ctx["tier"], "--seed", str(ctx["seed"]), "--out", out]
+    rc, so, se, secs = ctx["run"](cmd, timeout=900)
+    key = f"{fam}/{phase}/{'async' if use_async else 'sync'}/stack{stack >> 20}M"
+    if rc is None:
+        r = _empty_result(ctx)
+        r["inconclusive"].append(f"watchdog: bomb {key} size {size} exceeded 900 s wall clock")
+        return r, key, size, "timeout"
+    if rc == 0 and os.path.exists(out):
+        r = json.load(open(out))
+        for v in r["violations"]:
+            v["binary"] = "vcore"
+        return r, key, size, "violation" if r["violations"] else "ok"
+    ab = _parse_abort(se)
+    r = _empty_result(ctx)
+    r["coverage"]["evaluations"] = 1
+    if ab is None:
+        r["inconclusive"].append(f"bomb {key} size {size} died (rc={rc}) without attribution: {se[-300:]}")
+        return r, key, size, "died"
+    sig, case, ph, so_flag = ab
+    kind = "stack-overflow" if so_flag else f"abort-sig{sig}"
+    r["violations"].append({
+        "signature": f"C02:{kind}:bomb-{fam}:{PHASE_NAMES[ph]}",
+        "detail": f"{kind} in phase {PHASE_NAMES[ph]} ({'async' if use_async else 'blocking'} parser, {stack >> 20} MiB stack) on the {fam} bomb of {size} input bytes",
+        "replay": argv, "binary": "vcore"})
+    r["violations_total"] = 1
+    return r, key, size, kind
+
+
+def c02_steps(ctx):
+    thorough = ctx["tier"] == "thorough"
+    jobs = []
+    for fam in C02_FAMILIES:
+        n = 16 if (thorough or fam in ("tails", "grid", "mutations")) else 4
+        jobs += [(fam, i, n) for i in range(n)]
+    results = _pool(jobs, lambda j: c02_worker(ctx, *j))
+    # structural bombs: each (family, size, phase) in its own process
+    sizes = [4096 << i for i in range(9)] if thorough else [16384, 262144, 1048576]
+    bjobs = []
+    for fam in BOMB_FAMILIES:
+        for size in sizes:
+            for ph in C02_PHASES:
+                if fam == "member-count" and ph == "traverse" and size > 262144:
+                    continue  # the by-index collection iterator is quadratic; covered at <= 256 KiB
+                bjobs.append((fam, size, ph, 8 << 20, False))
+            bjobs.append((fam, size, "parse", 8 << 20, True))
+            if thorough:
+                bjobs.append((fam, size, "parse", 2 << 20, False))
+                bjobs.append((fam, size, "drop", 2 << 20, False))
+    bres = _pool(bjobs, lambda j: c02_bomb(ctx, *j))
+    boundary = {}
+    for r, key, size, outcome in bres:
+        results.append(r)
+        b = boundary.setdefault(key, {"max_ok": 0, "min_fail": None})
+        if outcome == "ok":
+            b["max_ok"] = max(b["max_ok"], size)
+        elif outcome not in ("timeout", "died"):
+            b["min_fail"] = size if b["min_fail"] is None else min(b["min_fail"], size)
+    head = results[0]
+    head["coverage"]["rule"] = (
+        "Hostile corpus, every input through the blocking parser (scripted source counting reads after EOF), the async parser (manual executor: "
+        "deadlock / busy-loop on logical steps) and, for ok results, Display/Debug/to_bytes/iteration/clone+eq/drop under catch_unwind, in child "
+        "processes whose abort handler attributes a signal to (case, phase). Families: (a) every tail of <=2 bytes after a valid header, 3-byte "
+        "tails (quick: 256x256x16 third bytes, thorough: all 2^24); (b) tag 0x00-0xff x value length {0..16,0xffff} x 6 fills x {framed,truncated}, "
+        "also straight into IppValue::parse; (c) with-language outer length 0..12 x inner length pairs; (d) all token sequences <=4 (quick) / <=5 "
+        "(thorough) over the 16-token alphabet; (e) grammar-aware mutations of G1/G2 messages; (f) structural bombs (14 families, sizes up to "
+        "1 MiB), one (family,size,phase) per process. evaluations = inputs run; distinct_nontrivial = distinct inputs (hash) that parsed to a result "
+        "and went through the inspection phases.")
+    head["coverage"]["bomb_boundaries"] = boundary
+    head["coverage"]["bomb_runs"] = len(bjobs)
+    head["assumptions"] = ["8 MiB stack for the case thread (main-thread default); stack overflow is judged per phase in a separate process",
+                           "hang = >1000 reads after EOF (blocking) or Pending without wake-up / 10000 polls without progress (async); wall clock is only a watchdog"]
+    return results
+
+
+def c02_replay(ctx, rp):
+    cmd = [_bin(ctx, "vcore")] + rp["argv"] + ["--tier", ctx["tier"]]
+    rc, so, se, secs = ctx["run"](cmd, timeout=QUICK_TIMEOUT)
+    bad = rc != 0 or '"violations_total":0' not in so.replace(" ", "")
+    return (1 if bad else 0), so, se, secs
+
+
 CHECKS = {
+    "C02": {"build": vcore_build, "steps": c02_steps, "replay": c02_replay, "level": "exploration"},
     "C01": vcore_check("c01"),
     "C03": vcore_check("c03"),
 }
